@@ -77,9 +77,13 @@ pub fn clip_line(
 
 /// the threshold are of 0.01 is used since
 /// lines may not be very aligned.
+///
+/// The triangle area is computed with the cross product, which is exact for
+/// points on the cell grid; Heron's formula loses all of its precision in f32
+/// for long thin triangles, which made long diagonal lines fail to merge.
 pub fn is_collinear(a: &Point, b: &Point, c: &Point) -> bool {
-    use std::ops::Deref;
-    Triangle::new(*a.deref(), *b.deref(), *c.deref()).area() < 0.01
+    let cross = (b.x - a.x) * (c.y - a.y) - (b.y - a.y) * (c.x - a.x);
+    (cross / 2.0).abs() < 0.01
 }
 
 pub fn pad(v: f32) -> f32 {
